@@ -95,3 +95,16 @@ Theorem C15_trim_by_offset :
     live (abs st') = filter (fun m => before <=? moff m) (live (abs st)).
 Proof. exact trim_by_offset_spec. Qed.
 Print Assumptions C15_trim_by_offset.
+
+(* TrimByCountMulti: afterwards exactly the newest min(count, max) messages are left, untouched; NextOffset stays *)
+Theorem C15_trim_by_count :
+  forall (H : bytes -> Z) c st max,
+  Inv st -> opened st = Some c -> cro c = false -> 0 <= max ->
+  exists st' del size,
+    trim_multi H (fun s => find_by_count H s max) st = (st', del, size, None) /\ Inv st' /\
+    anext (abs st') = anext (abs st) /\
+    let cnt := zlen (live (abs st)) in
+    live (abs st') = skipn (Z.to_nat (cnt - max)) (live (abs st)) /\
+    zlen (live (abs st')) = Z.min cnt max.
+Proof. exact trim_by_count_spec. Qed.
+Print Assumptions C15_trim_by_count.
